@@ -276,6 +276,15 @@ class Body:
         for d in fn['dbg']:
             if not d['pl']['p']:
                 self.names.setdefault(d['pl']['l'], d['name'])
+        # captured variables of a closure: debug info places `(*_1).N` / `_1.N`
+        self.upvars = {}
+        if fn['kind'] == 'Closure':
+            for d in fn['dbg']:
+                pl = d['pl']
+                if pl['l'] == 1 and pl['p']:
+                    fs = [e for e in pl['p'] if e.startswith('.')]
+                    if len(fs) == 1 and fs[0][1:].isdigit():
+                        self.upvars.setdefault(fs[0], d['name'])
         self.is_result = is_result_ty(fn['ret'])
         self._err = None
         self._dom = None
